@@ -267,6 +267,7 @@ _prop('C13',
 
 _prop('C17',
       rules=[rules_table.rule_to_sparse, rules_canon.rule_invariant_g,
+             rules_canon.rule_or_canon_consumers,
              rules_table.rule_or_errcheck, rules_err.rule_ag_errkinds,
              rules_table.rule_or_bypass, rules_table.rule_importers,
              ax(['Table.__init__', 'Table._index_ids', 'Table.from_json',
